@@ -130,6 +130,11 @@ def judge_text(text, case=None, stats=None):
 BIG = 10000
 FAIL_EXPRS = {
     'undefined-variable': lambda: ('Name', 'undefined_zz9'),
+    'undefined-variable-dotted': lambda: ('Name', '%nosuch9.field%'),
+    'undefined-variable-dots-only': lambda: ('Name', '%.%'),
+    'undefined-variable-spaced': lambda: ('Name', '%no such 9%'),
+    'undefined-variable-superscript': lambda: ('Name', 'x9\u00b2'),
+    'undefined-variable-unicode': lambda: ('Name', '\u00e9t\u00e99'),
     'undefined-function': lambda: ('Call', 'nofn9', [('Val', typed.D('1'))], 'call'),
     'undefined-method': lambda: ('Call', 'nomethod9', [('Name', 'xs')], 'dot'),
     'undefined-pipe': lambda: ('Call', 'nopipe9', [('Name', 'xs')], 'pipe'),
@@ -293,6 +298,8 @@ def run_placed(case):
                                                                       f'(raised in {innermost_frame(e)}), not ParserError', case)], info
 
 
+UNDEF_WHOLE = ['\u00b2', '\u00b9\u00b2\u00b3', '\u2460', 'x\u00b2', '\u2082', '\u00bd', '\u0663x', '%nosuch.field%', '%.%', '%a.b.c%', '%x y%', '_', '__', 'zz9', '\u00e9', 'True9', 'not9', 'r', 'rx',
+               '\u2167', '\u3007', '\U0001d7d8x', '\u0e50a']
 AST_FAILS = ['undefined_zz9', 'nofn9(1)', '[][0]', '{}["k"]', '[].pop()', 'u9 += 1', '"abc"[9]', 'map([1], (a, b) => b)', 'x9 = undefined_zz9\nx9']
 
 
@@ -378,6 +385,11 @@ def placed_cases(draw):
         if n(3) == 0:
             return {'kind': 'ast', 'placed': 'ast_names-budget', 'defs': {'h9': '[1, 2, 3] | map(v => v * 2)'}, 'src': '1', 'budget': 1 + n(8)}
         return {'kind': 'ast', 'placed': 'ast_names-definition', 'defs': defs, 'src': pick(['1', 'h9', 'ok9(2)']), 'budget': 1000}
+    if n(14) == 0:
+        # the whole program is one undefined name / call (fast paths for "trivial" programs must fail the same way)
+        name = pick(UNDEF_WHOLE)
+        src = pick(['{n}', '{n}', ' {n}', '{n} ', '{n}\n', '{n}()', '{n} + 1', '{n}.f9()', '({n})', 'z9 = {n}', '{n} # c']).format(n=name)
+        return {'kind': 'placed', 'placed': 'undefined-name-as-whole-program', 'src': src, 'env': core.enc({}), 'big': False, 'budget': None}
     stmts, env, labels = draw(typed.programs(max_stmts=4, max_depth=3, allow_errors=False, regex=False))
     stmts = list(stmts)
     mode = n(10)
